@@ -32,9 +32,9 @@ pub fn value(token: &str) -> (SecretMeta, Secret) {
         "v4" => mock::note(&label, ""),
         "v5" => mock::note(&label, &"long text ".repeat(20_000)),
         "v6" => {
+            // a single item: HashMap iteration order must not matter
             let mut items = HashMap::new();
-            items.insert("k1", "item one");
-            items.insert("k2", "item two \u{1F511} \u{00e9}");
+            items.insert("k1", "item one \u{1F511} \u{00e9}");
             mock::list(&label, items)
         }
         "v7" => mock::link(&label, "https://example.com/some/path?q=1"),
